@@ -124,6 +124,15 @@ impl<T: Clone + Ord + Eq> Identifier<T> {
     }
 //@end
 
+//@extract fn src/identifier.rs "Identifier" into_value
+    pub fn into_value( /*@<*/ mut /*@>*/ self) -> /*@ (r: @*/ T /*@ ) @*/
+    //@ requires self@.len() > 0,
+    //@ ensures r == self@.last().1,
+    {
+        /*@ let mut this = self; this @*/ /*@<*/ self /*@>*/ .0.pop().map( /*@<*/ | /*@>*/ /*@<patv*/ (_, elem) /*@>*/ /*@<*/ | /*@>*/ /*@ |p: (BigRational, T)| -> (o: T) ensures o == p.1 { let $patv = p; @*/ elem /*@ } @*/ ).unwrap() // TODO: remove this unwrap
+    }
+//@end
+
 //@extract fn src/identifier.rs "Identifier" between
     pub fn between(low: Option<&Self>, high: Option<&Self>, marker: T) -> /*@ (r: @*/ Self /*@ ) @*/
     //@ requires between_ok::<T>(),
